@@ -384,7 +384,7 @@ Definition in_domain (c : call) : bool :=
       not_nil (c_seq c) && ((c_nseq c =? 1)%nat || not_nil (c_seq2 c)) && not_test_not (c_test c) &&
       (negb (c_flag c) || ((c_nseq c =? 1)%nat && negb (existsb (pred_app (c_pred c)) l1)))   (* KF some returns t *)
   | FMap => not_nil (c_seq c) && ((c_nseq c =? 1)%nat || not_nil (c_seq2 c))
-  | FMapcar => is_list (c_seq c) && not_nil (c_seq c) && ((c_nseq c =? 1)%nat || (is_list (c_seq2 c) && not_nil (c_seq2 c)))
+  | FMapcar => is_list (c_seq c) && ((c_nseq c =? 1)%nat || is_list (c_seq2 c))
   | FReduce =>
       not_nil (c_seq c) &&
       (start_absent (c_start c) || (s_start c <? s_end c l1)%nat) &&              (* KF :start = end *)
